@@ -70,6 +70,7 @@ st_dump(const char *argv0, const char *tag) {
 }
 
 static uint64_t n_transitions = 0, n_corruptions = 0, n_corr_ref_reject = 0, n_corr_ref_accept = 0, n_corr_unspec = 0;
+static uint64_t n_corr_unspec_covered = 0;
 static uint64_t n_wrong_secret = 0, n_ws_ref_accept = 0, n_dup_refused = 0, n_dup_accepted = 0;
 
 /* ------------------------------------------------------------------ the enumerated space */
@@ -448,7 +449,8 @@ case_verify(int code_i, int sidx, const int *seq, int len, int add_ma) {
 			else { n_corr_ref_accept ++; if (!la) vh_fail("rejects-unprotected-change", "chk=%d verify=%d; no authenticator covers this byte and the packet is well-formed, RFC receiver accepts", rc_chk, rc_ver); }
 			/* harness self-check: every byte of a response / Accounting-Request is under its authenticator.  A flip that
 			 * turns the Code into Access-Request (3^02, 5^04) yields, by RFC design, an unauthenticated request: excluded */
-			if (covered_all && 1 != base[0] && R_REJECT != rd) vh_fail("harness:reference-accepts-covered-corruption", "decision %d", rd);
+			if (covered_all && 1 != base[0] && R_ACCEPT == rd) vh_fail("harness:reference-accepts-covered-corruption", "decision %d", rd);
+			if (covered_all && 1 != base[0] && R_UNSPEC == rd) n_corr_unspec_covered ++;	/* Code flipped to 12/13/43: outside the reference */
 			base[i] ^= (uint8_t)MASKS[k];
 		}
 	}
@@ -589,6 +591,7 @@ main(int argc, char **argv) {
 	printf("NOTE\tradius_corruptions_ref_reject=%llu\n", (unsigned long long)n_corr_ref_reject);
 	printf("NOTE\tradius_corruptions_ref_accept=%llu\n", (unsigned long long)n_corr_ref_accept);
 	printf("NOTE\tradius_corruptions_unspecified=%llu\n", (unsigned long long)n_corr_unspec);
+	printf("NOTE\tradius_corruptions_unspecified_code_flip=%llu\n", (unsigned long long)n_corr_unspec_covered);
 	printf("NOTE\tradius_wrong_secret_trials=%llu\n", (unsigned long long)n_wrong_secret);
 	printf("NOTE\tradius_wrong_secret_ref_accept=%llu\n", (unsigned long long)n_ws_ref_accept);
 	printf("NOTE\tradius_duplicate_adds_refused=%llu\n", (unsigned long long)n_dup_refused);
